@@ -78,8 +78,15 @@ impl InstallManifestBuilder {
     ///
     /// Tags are used to categorize files for selective installation.
     /// The bit mask is automatically sized to accommodate current files.
+    ///
+    /// A tag is identified by its name: adding a name that is already present
+    /// keeps the existing tag, its type and its file associations.
     #[must_use]
     pub fn add_tag(mut self, name: String, tag_type: TagType) -> Self {
+        if self.tag_name_to_index.contains_key(&name) {
+            return self;
+        }
+
         let tag_index = self.tags.len();
         let bit_mask_size = self.entries.len().div_ceil(8);
 
@@ -494,6 +501,27 @@ mod tests {
         assert!(builder.has_tag("Windows"));
         assert!(builder.has_tag("x86_64"));
         assert!(!builder.has_tag("Mac"));
+    }
+
+    #[test]
+    fn test_add_tag_twice_keeps_one_tag() {
+        let manifest = InstallManifestBuilder::new()
+            .add_tag("Windows".to_string(), TagType::Platform)
+            .add_file("a".to_string(), ContentKey::from_bytes([1; 16]), 7)
+            .associate_file_with_tag(0, "Windows")
+            .expect("Operation should succeed")
+            .add_tag("Windows".to_string(), TagType::Platform)
+            .add_file("b".to_string(), ContentKey::from_bytes([2; 16]), 5)
+            .associate_file_with_tag(1, "Windows")
+            .expect("Operation should succeed")
+            .build()
+            .expect("Operation should succeed");
+
+        assert_eq!(manifest.tags.len(), 1);
+        let data = manifest.build().expect("Operation should succeed");
+        let parsed = InstallManifest::parse(&data).expect("Operation should succeed");
+        assert_eq!(parsed.get_files_for_tag("Windows").len(), 2);
+        assert_eq!(parsed.calculate_install_size(&["Windows"]), 12);
     }
 
     #[test]
